@@ -108,7 +108,9 @@ func runC09(c *Ctx) {
 		bad := 0
 		for _, cp := range paths {
 			ret := cp.End.(*ssa.Return)
-			if cp.Deref(ret.Results[0]) != errV {
+			// the read's error itself, or a wrapper that errors.Is sees through (seed C09n:
+			// fmt.Errorf("... %w", err) keeps the io.EOF it was meant to replace)
+			if rv := cp.Deref(ret.Results[0]); rv != errV && !wrapsError(rv, errV, &cp) {
 				continue
 			}
 			notEOF := false
@@ -1165,4 +1167,69 @@ func globalOf(v ssa.Value) (*ssa.Global, bool) {
 		}
 	}
 	return nil, false
+}
+
+
+// variadicElems: the values stored into the backing array of a variadic operand.
+func variadicElems(arg ssa.Value) []ssa.Value {
+	sl, ok := arg.(*ssa.Slice)
+	if !ok {
+		return nil
+	}
+	al, ok := sl.X.(*ssa.Alloc)
+	if !ok {
+		return nil
+	}
+	var out []ssa.Value
+	for _, ref := range *al.Referrers() {
+		ia, ok := ref.(*ssa.IndexAddr)
+		if !ok {
+			continue
+		}
+		for _, r2 := range *ia.Referrers() {
+			if st, ok := r2.(*ssa.Store); ok && st.Addr == ia {
+				out = append(out, st.Val)
+			}
+		}
+	}
+	return out
+}
+
+// wrapsError: v is fmt.Errorf with a %w verb / errors.Join over inner - a value for which
+// errors.Is(v, target) answers what it answers for inner.
+func wrapsError(v, inner ssa.Value, cp *CFGPath) bool {
+	call, ok := strip(v).(*ssa.Call)
+	if !ok {
+		return false
+	}
+	var elems []ssa.Value
+	switch {
+	case IsCallTo(call, "fmt.Errorf") && len(call.Call.Args) == 2:
+		if f, ok := ConstString(call.Call.Args[0]); !ok || !strings.Contains(f, "%w") {
+			return false
+		}
+		elems = variadicElems(call.Call.Args[1])
+	case IsCallTo(call, "errors.Join") && len(call.Call.Args) == 1:
+		elems = variadicElems(call.Call.Args[0])
+	default:
+		return false
+	}
+	for _, e := range elems {
+		x := e
+		for {
+			switch y := x.(type) {
+			case *ssa.MakeInterface:
+				x = y.X
+				continue
+			case *ssa.ChangeInterface:
+				x = y.X
+				continue
+			}
+			break
+		}
+		if x == inner || (cp != nil && cp.Deref(x) == inner) {
+			return true
+		}
+	}
+	return false
 }
